@@ -6,7 +6,8 @@ LEAN_MODULES = ["MpirProofs.Props.C07"]
 THEOREMS = ["Mpir.C07.red_preserves", "Mpir.C07.gcd_loop_correct", "Mpir.C07.gcd_loop_terminates",
             "Mpir.C07.gcd_1_spec", "Mpir.C07.gcdext_1_spec",
             "Mpir.C07.mpz_gcd_spec", "Mpir.C07.mpz_gcdext_spec", "Mpir.C07.gcdext_unique", "Mpir.C07.invert_spec", "Mpir.C07.mpz_gcd_ui_spec", "Mpir.C07.lcm_spec",
-            "Mpir.C07.jacobi_base_spec", "Mpir.C07.kronecker_spec"]
+            "Mpir.C07.jacobi_base_spec", "Mpir.C07.kronecker_spec",
+            "Mpir.C07.kronecker_wrappers_spec", "Mpir.C07.mpz_jacobi_spec"]
 TRUSTED = ["hand-written models lean/Mpir/Model/Gcd.lean (tied by correspondence on every run)",
            "assembly kernel mpn_modexact_1c_odd is modelled by its documented contract (r < d, r*B^n + a = 0 mod d) and compared on every run",
            "mpn_hgcd / hgcd_appr / hgcd_reduce / matrix22_mul (sizes above the DC thresholds) are covered by the differential run and the abstract step theorem only"]
